@@ -276,6 +276,11 @@ def make_case(rng, sw, nrows, cid):
         c.default_conv = Conv()
         c.conv_yaml_form = rng.choice(["bare", "bare", "primary-only", "full"])
     c.precisions = {c.primary: 2} if rng.random() < 0.5 else {}
+    if c.has_conv and rng.random() < 0.4:
+        # a declared precision for the commodities of the COUNTER amount: it pads what is printed, it never rounds what is booked
+        for sc in ("VT", "XAG", "GBP", "XAU"):
+            if rng.random() < 0.6:
+                c.precisions[sc] = rng.choice([2, 2, 0, 3])
     c.crlf = rng.random() < 0.2
     # ---- columns
     keys = ["date", "payee"]
